@@ -67,6 +67,9 @@ def check_case(case):
         exp, rejected = None, str(e)
     if "tree" in case and case["tree"] is not None and exp != case["tree"]:
         raise AssertionError(f"reference reader disagrees with the generator: {text!r}")
+    if rejected == "does not start with (" and len(sexpr.tokenize(text)) == 1:
+        res.skipped = "bare-top-level-token(out of scope)"
+        return res
     seps = case.get("nsep", 0)
     res.nontrivial = bool(rejected) or (case.get("depth", 0) >= 2 and seps >= 2)
     res.classes.append("malformed" if rejected else "valid")
@@ -238,6 +241,8 @@ def plan(tier):
                 "exhaustive_note": "all token trees with <= 4 nodes below the root over {a,B,?x} x all-gaps-equal, "
                                    "single-gap substitutions, upper case, single paren deletion/insertion, tails"}
     return {"exhaustive": [(6, i, 64) for i in range(64)], "streams": {"main": 320000}, "shards": 16,
+            "fuzz": [{"script": "pv/fuzz/tokenizer_fuzz.py", "runs": 150000, "shards": 4, "corpus": None},
+                     {"script": "pv/fuzz/tokenizer_fuzz.py", "runs": 50000, "shards": 2, "corpus": "pv/fuzz/corpus_c11"}],
             "exhaustive_is_complete": True,
             "exhaustive_note": "as quick with <= 5 nodes below the root"}
 
